@@ -42,7 +42,11 @@ def all_vectors():
                 if key in seen:
                     continue
                 seen.add(key)
-                out.append({"cmd": c, "arg": a, "file": f, "testnet": t, "paranoia": p, "account": x, "start": s, "end": e})
+                out.append({"cmd": c, "arg": a, "file": f, "testnet": t, "paranoia": p, "account": x, "start": s, "end": e, "help": False})
+            # help requests (global and per sub-command), with and without a file option
+            for f in ("none", "absent", "existing"):
+                out.append({"cmd": c, "arg": a, "file": f, "testnet": False, "paranoia": False, "account": "default",
+                            "start": "0", "end": "3", "help": True})
     return out
 
 
@@ -60,7 +64,8 @@ def random_vectors(rng, n):
             s, e = rng.choice([("0", "1"), ("0", "3"), ("1", "3"), ("3", "3"), ("3", "1"), ("2^31-1", "2^31"), ("0", "0")])
         out.append({"cmd": c, "arg": a, "file": rng.choice(FILES if rng.random() < 0.5 else ["none", "absent"]),
                     "testnet": rng.random() < 0.5, "paranoia": rng.random() < 0.5,
-                    "account": rng.choice(ACCOUNTS if rng.random() < 0.4 else ["default", "0", "5", "2^31-2"]), "start": s, "end": e})
+                    "account": rng.choice(ACCOUNTS if rng.random() < 0.4 else ["default", "0", "5", "2^31-2"]), "start": s, "end": e,
+                    "help": False})
     return out
 
 
@@ -138,7 +143,7 @@ def run(ctx):
 
     def mut(e):
         import copy
-        if e["obs"]["exit"] == 0:
+        if e["obs"]["exit"] == 0 and not e["argv"].get("help"):
             c = copy.deepcopy(e)
             c["obs"]["equals_api"] = False
             return c
